@@ -181,9 +181,29 @@ def run(ctx, case):
 
     spec, sysobj = _rows.build_with_history(ctx, case["spec"], case.get("history", "fresh"), case["cseed"] & 0xFFFFFF, prefer=_draw_first)
     conf = make_config(rng, ns, spec)
-    conf_before = copy.deepcopy(conf)
     heat, grp = case["heat"], case["group"]
     fn = ns.diagram.make_hdiag if heat else ns.diagram.make_diag
+    if conf and rng.random() < 0.5:
+        # the caller's configuration object has been used for an earlier drawing with OTHER contents and was then
+        # edited in place (a user tuning colours between renderings): the drawing follows the present contents
+        other = make_config(random.Random(case["cseed"] ^ 0xC0F), ns, spec)
+        if other and other != conf:
+            final = copy.deepcopy(conf)
+            conf.clear()
+            conf.update(copy.deepcopy(other))
+            with H.tmpdir() as d0, H.quiet():
+                H.call(fn, sysobj, fname=os.path.join(d0, "earlier.raw"), group=grp, config=conf)
+            for sect in list(conf):
+                if sect not in final:
+                    del conf[sect]
+            for sect, val in final.items():
+                if isinstance(conf.get(sect), dict) and isinstance(val, dict):
+                    conf[sect].clear()        # the section dicts are edited in place as well
+                    conf[sect].update(val)
+                else:
+                    conf[sect] = val
+            ctx.count("config_object", "reused after in-place edit")
+    conf_before = copy.deepcopy(conf)
     names = [c["name"] for c in spec["comps"]]
     det0 = {"mode": "heat" if heat else "plain", "group": grp, "names": names[:12], "hostile": case.get("hostile", False)}
     losses = None
